@@ -101,6 +101,15 @@ Definition d_scan (op : string) (v : val) : option val :=
         end
     | _ => None
     end
+  else if String.eqb op "chk.msp.tiling" then
+    match v with
+    | VL [VN k; VN r; VL ros] =>
+        match omap v_read_out ros with
+        | Some l => Some (ofbool (check_tiling (N.to_nat k) (negb (r =? 0)) l))
+        | None => None
+        end
+    | _ => None
+    end
   else if String.eqb op "chk.msp" || String.eqb op "chk.msp.unguarded" then
     match v with
     | VL [VN k; VN r; VL ros] =>
@@ -114,5 +123,5 @@ Definition d_scan (op : string) (v : val) : option val :=
 
 Definition is_scan_op (op : string) : bool :=
   String.eqb (substring 0 5 op) "scan." || String.eqb (substring 0 4 op) "msp." ||
-  String.eqb op "chk.scan" || String.eqb op "chk.scan.unguarded" || String.eqb op "chk.simple_scan" || String.eqb op "chk.msp" ||
+  String.eqb op "chk.scan" || String.eqb op "chk.scan.unguarded" || String.eqb op "chk.simple_scan" || String.eqb op "chk.msp" || String.eqb op "chk.msp.tiling" ||
   String.eqb op "chk.msp.unguarded".
